@@ -232,7 +232,16 @@ def _prepared(gtype, coords, key, tb, fb):
             pt, pc = r.type, r.coordinates
         else:
             pt, pc = gtype, gm.normal(gtype, coords)
-        p = _PREP[k] = (pt, pc, am.time_extent(pt, pc), am.freq_extent(pt, pc), am.area(pt, pc))
+        te, fe = am.time_extent(pt, pc), am.freq_extent(pt, pc)
+        if am.is_buffered_kind(gtype) and gtype in ("TimeStamp", "Point", "MultiPoint"):
+            # point-like kinds: the buffered extent is known exactly (coordinate -/+ buffer, clipped to the domain; the
+            # polygonised circle has vertices on the axes), so it is taken from the raw coordinates and NOT from
+            # buffer_geometry: a buffering that depends on earlier calls then shows up here instead of being inherited
+            ext = gm.extent(gtype, coords)
+            te = (max(F(ext[0]) - F(tb), F(0)), F(ext[2]) + F(tb))
+            if gtype != "TimeStamp":
+                fe = (max(F(ext[1]) - F(fb), F(0)), min(F(ext[3]) + F(fb), F(gm.MAX_FREQUENCY)))
+        p = _PREP[k] = (pt, pc, te, fe, am.area(pt, pc))
     return p
 
 
